@@ -115,9 +115,18 @@ def r1(ctx: Ctx) -> None:
             if sym is None:
                 continue
             k = (where, sym)
+            via = None
+            if k not in ALLOW and f is not None:
+                from ..kit import caller_ok
+
+                for (q_, s_), why_ in ALLOW.items():
+                    if s_ == sym and caller_ok(ctx, f, lambda g, q_=q_: g.qualname == q_):
+                        via = (q_, why_)
             if k in ALLOW:
                 used_allow.add(k)
                 ctx.holds(f, node, f"{sym} in {where}", expected="allowlisted: " + ALLOW[k], found=sym)
+            elif via is not None:
+                ctx.holds(f, node, f"{sym} in {where} (private helper of {via[0]})", expected="allowlisted: " + via[1], found=sym)
             else:
                 ctx.violated(f, node, f"{sym} in {where}", "no ambient source of nondeterminism", f"{sym}: {why}")
         # os.environ attribute reads (not calls)
